@@ -1,5 +1,5 @@
 #!/bin/bash
-# usage: confirm_seed.sh <ID> <crate-for-demo> <demo-file>... ; demo files are taken from /tmp/wt-out/<ID>/
+# usage: [EXTRA_DIR=<fixture dir>] confirm_seed.sh <ID> <crate-for-demo> <demo-file>... ; demo files are taken from /tmp/wt-out/<ID>/
 # Confirms a seeded mutant independently: applies to a scratch worktree of /repo HEAD, runs the repo suite
 # (only always-fail fixture tests may fail), runs the demo with and without the change; stores it in /verif/seeded/<ID>/.
 set -u
@@ -28,6 +28,7 @@ PY
 cat /tmp/cs/$ID.suite.verdict
 TESTS=""
 for f in "$@"; do mkdir -p crates/$CRATE/tests; cp $SRC/$f crates/$CRATE/tests/; TESTS="$TESTS --test ${f%.rs}"; done
+if [ -n "${EXTRA_DIR:-}" ]; then cp -r $SRC/$EXTRA_DIR crates/$CRATE/tests/; mkdir -p /verif/seeded/$ID; cp -r $SRC/$EXTRA_DIR /verif/seeded/$ID/; fi
 cargo test -p $CRATE $TESTS --offline > /tmp/cs/$ID.demo_with.log 2>&1; WITH=$?
 git apply -R $SRC/patch.diff
 cargo test -p $CRATE $TESTS --offline > /tmp/cs/$ID.demo_without.log 2>&1; WITHOUT=$?
